@@ -1,8 +1,8 @@
 """C25 sandboxed runs always finish within their step budget."""
-REG_DRAFT = dict(
+REG = dict(
     engine='E1-enum',
     technique='exhaustive enumeration of divergence mechanism x program position x sandbox mode, each run as a real CLI process under an address-space limit and a wall-clock cap',
-    text="A finite family per way of not finishing: 13 never-terminating loop/recursion forms (while, for, self/mutual/closure/method/callback recursion, endless printing, read_line on an open stdin), 9 value-growth forms whose size doubles or nests per iteration (string, list, Option, tuple, dict; by loop and by recursion), every public prelude function and method called on large arguments (256 KiB string, 65k-element list, i64 extremes; does one interpreter step stay bounded?), recursion to every depth 994..1006 (quick) / 985..1015 (thorough) around the 1 000-frame limit (plus 10, 100, 900, 1 100, 2 000) and a ladder of values nested 10..1 000 (quick) / 10..100 000 (thorough) deep that are then dropped, printed, compared or shown. Each is placed at top level, in a function, closure, method and test body and run with `playground-run` and `sandboxed-test` (growth forms: reduced cross in quick). Oracle: the process exits by itself with status 0 and a JSON result (value, error, tick- or stack-limit error): no signal, no panic (101), no allocation failure under RLIMIT_AS, not the wall cap (60 s; a timed-out case is re-run alone with 3x the cap before it counts).",
+    text="A finite family per way of not finishing: 13 never-terminating loop/recursion forms (while, for, self/mutual/closure/method/callback recursion, endless printing, read_line on an open stdin), 9 value-growth forms whose size doubles or nests per iteration (string, list, Option, tuple, dict; by loop and by recursion), every public prelude function and method called on large arguments (256 KiB string, 65k-element list, i64 extremes; does one interpreter step stay bounded?), recursion to every depth 994..1006 (quick) / 985..1015 (thorough) around the 1 000-frame limit (plus 10, 100, 900, 1 100, 2 000) and a ladder of values nested 10..1 000 (quick) / 10..100 000 (thorough) deep that are then dropped, printed, compared or shown. Each is placed at top level, in a function, closure, method and test body and run with `playground-run` and `sandboxed-test` (growth forms: reduced cross in quick). Oracle: the process exits by itself with status 0 and a JSON result (value, error, tick- or stack-limit error): no signal, no panic (101), no allocation failure under RLIMIT_AS, not the wall cap (60 s, 180 s for the memory-growing families; a timed-out case is re-run with 3x the cap before it counts).",
     note='Limits are the fixed sandbox limits (100 000 ticks, 1 000 frames). Address space is limited to 1 GiB; for programs that are unbounded by construction (the growth family) any limit is fair, an allocation failure of a bounded program is re-run under 4 GiB before it counts. Re-runs go two at a time rather than strictly alone. Only the listed mechanisms are covered, not their compositions.',
     design_ref='DESIGN.md §6 C25',
 )
@@ -249,12 +249,15 @@ def run(ctx):
             pass
         return r
 
+    def cap_of(c):
+        return WALL * (3 if c["heavy"] else 1)      # memory-growing cases are slow by construction: 180 s before the first re-run
+
     def do_case(ic):
         i, c = ic
         if c["heavy"]:
             with heavy_sem:
-                return execute(i, c, WALL, as_kib)
-        return execute(i, c, WALL, as_kib)
+                return execute(i, c, cap_of(c), as_kib)
+        return execute(i, c, cap_of(c), as_kib)
 
     def verdict(c, r):
         """(failure kind | None, outcome class)"""
@@ -298,7 +301,7 @@ def run(ctx):
             kind, cls = verdict(c, r)
             if kind == "timeout" or (kind == "oom" and not c["unbounded"]):
                 doubtful.append((j, kind))
-        redo = clijobs.pmap(lambda jk: execute(base + jk[0], stage[jk[0]], 3 * WALL, 4 * GIB if jk[1] == "oom" else as_kib), doubtful, threads=2)
+        redo = clijobs.pmap(lambda jk: execute(base + jk[0], stage[jk[0]], 3 * cap_of(stage[jk[0]]), 4 * GIB if jk[1] == "oom" else as_kib), doubtful, threads=2)
         for (j, kind), r2 in zip(doubtful, redo):
             ctx.outcome(f"rerun after {kind}: {verdict(stage[j], r2)[1]}")
             sres[j] = r2
